@@ -1,4 +1,4 @@
-"""C11 -- undo and redo are exact inverses (clauses R11.1-R11.13)."""
+"""C11 -- undo and redo are exact inverses (clauses R11.1-R11.14)."""
 from __future__ import annotations
 
 import ast
@@ -19,6 +19,7 @@ EXPLANATION = (
     " R11.9: the saved undo/redo lists are rebuilt in the order they were saved (writer direction x loader direction x insertion end, per slot).  R11.10: every constant-index pick of 'the last change' in undo/redo is [-1] (changes are appended)."
     ' R11.11: a change is recorded for undo as soon as one of its resources is not ignored.'
 )
+EXPLANATION += ' R11.14: the dependency closure grows with the resources of dependent changes only.'
 EXPLANATION += " R11.13: dependencies between changes are decided on paths, not on Resource objects or the recorded object's kind."
 ASSUMPTIONS = ["_ResourceOperations primitives do what their names say (C13/C16 check notify and codec separately)"]
 
@@ -423,3 +424,36 @@ def _dependency_by_path_rule(ctx, res) -> None:
 def check(ctx, res) -> None:
     _check_body(ctx, res)
     _dependency_by_path_rule(ctx, res)
+    _closure_grows_with_dependents_only_rule(ctx, res)
+
+
+def _closure_grows_with_dependents_only_rule(ctx, res) -> None:
+    """R11.14: the dependency closure of a selective undo is built by one pass over the later changes: a change is taken along
+    when it touches a resource of the closure SO FAR, and only then do its own resources join the closure.  The statement
+    that adds a change's resources to the recorded set runs only under the dependency test's yes.  Outside of it, an
+    unrelated change pollutes the set and drags still later changes on ITS resources along: undo(#0) of `edit a, edit b,
+    edit b` would also undo the third."""
+    from ..cfg import CFG
+    from . import common
+    idx = ctx.idx
+    f = idx.need_func("rope.base.history._FindChangeDependencies.__call__")
+    keep = tuple(m for m in (f.cls.methods if f.cls else {}) if m.lstrip("_").startswith("depends"))  # the test itself stays a call
+    node = common.inline_private_calls(idx, f, keep=keep)
+    cfg = CFG(node)
+    n = 0
+    for nd in cfg.nodes:
+        if nd.kind != "stmt" or nd.ast is None:
+            continue
+        ups = [c for c in calls_in(nd.ast) if isinstance(c.func, ast.Attribute) and c.func.attr in ("update", "add", "__ior__") and is_self_attr(c.func.value)
+               and "resource" in c.func.value.attr]
+        if isinstance(nd.ast, ast.AugAssign) and is_self_attr(nd.ast.target) and "resource" in nd.ast.target.attr:
+            ups.append(nd.ast)
+        if not ups or not cfg.loop_guards(nd.id):
+            continue
+        n += 1
+        ok = any(pol and any(isinstance(c, ast.Call) and (call_name(c) or "").lstrip("_").startswith("depends") for c in ast.walk(t)) for t, pol in cfg.guards(nd.id))
+        res.add("R11.14", f"_FindChangeDependencies.__call__|closure-grows-with-dependents-only#{n}", ok, f"{f.unit.rel}:{nd.lineno}",
+                "a change's resources join the closure only when the change was found dependent" if ok else
+                f"`{ast.unparse(nd.ast)[:70]}` runs for EVERY later change, dependent or not: after `edit a.txt (#0), edit b.txt (#1), edit b.txt (#2)`, undo(#0) takes "
+                "#2 along because #1 put b.txt into the set -- b.txt ends with #1's content and #2 sits in the redo list", function=f.qualname)
+    res.floor("R11.14", "updates of the recorded resource set inside the pass", n, 1)
